@@ -78,5 +78,45 @@ CHECKS = {
         "note": PLANNER_NOTE + " The never-panics theorem is proved for RRT and RRT-Connect; RRT* and PRM are covered by the correspondence and the panic-capturing oracle only.",
         "technique": "Coq proof (panics as outcomes; invariant over API histories) + correspondence on fault-injected call scripts",
     },
+    "C15": {
+        "category": "proof",
+        "text": "Theorems C15_* (coq/Props/C15.v): in every state reachable by any API history (success, timeout or error), each search "
+                "tree of RRT / RRT-Connect / RRT* satisfies: node 0 is the only parentless node and holds the start (goal-tree: the sampled "
+                "goal) state, every other node is valid, has an in-range parent and the link was accepted by check_motion with the recorded "
+                "step-length fact; RRT/RRT-Connect parents are older than children (no cycles); for RRT* - where rewiring re-parents to "
+                "younger nodes - acyclicity is proved from the cost invariant at float level (Flocq) for every space with distances >= 0, "
+                "not NaN, zero-length edges and equal costs included; path extraction from any node terminates at the root and yields a "
+                "chain of checked links. Correspondence: full tree snapshots (states, parents, cost bits) after every call must equal the "
+                "model's, bounded-depth per-iteration runs included; snapshot oracle on every real run.",
+        "design_ref": "DESIGN.md section 7 C15",
+        "note": PLANNER_NOTE + " Termination of RRT* extraction is stated as 'some finite fuel suffices' (the code's loop is unbounded); the model's own fuel bound |tree|+1 is not proved sufficient.",
+        "technique": "Coq proof (tree invariants incl. float-level acyclicity of RRT* rewiring) + snapshot correspondence by vm_compute",
+    },
+    "C16": {
+        "category": "proof",
+        "text": "Theorems C16_* (coq/Props/C16.v): for any tree and any sample, the extension step picks the FIRST node at minimal distance "
+                "(no node closer, every earlier node strictly farther; float-order proof under non-NaN distances), appends at most one node "
+                "(the sample itself if not (d > max), else interpolate(near, sample, max/d)), nothing when the motion is rejected, leaves all "
+                "existing nodes untouched; goal sampler used iff u64 < floor(p*2^64) (never for p = 0, always and without a draw for p = 1); "
+                "RRT-Connect grows the start tree iff it is not larger, then extends the other tree once toward the new node. "
+                "Correspondence: per-iteration runs (every solve has budget 1) compare consecutive tree snapshots and the sampler-kind trace "
+                "with the model; direct oracle re-derives nearest / step from the real metric.",
+        "design_ref": "DESIGN.md section 7 C16",
+        "note": PLANNER_NOTE + " 'At exactly the maximum step' on the real spaces is the real-model steer law of C05/C10; the float deviation is a sampled tolerance.",
+        "technique": "Coq proof (one-iteration specification, float order via Flocq) + per-iteration snapshot correspondence",
+    },
+    "C17": {
+        "category": "proof",
+        "text": "Theorems C17_* (coq/Props/C17.v), exact in IEEE-754 arithmetic for every space with distances >= 0, not NaN: in every "
+                "reachable RRT* state cost(parent) + dist(node,parent) <= cost(node), costs >= 0, the root keeps cost 0, the recorded cost "
+                "bounds the root-to-leaf length of the branch; choose-parent links to a cheapest candidate among the nearest node and the "
+                "neighbours with a valid motion; rewiring re-parents exactly the neighbours that get strictly cheaper (others bit-identical); "
+                "RRT* fed the same samples as RRT holds the same node states at every iteration and stops in the same iteration, and its "
+                "recorded cost never exceeds RRT's branch length. Correspondence: snapshots with cost bits; direct oracles: cost invariant "
+                "on every snapshot, RRT vs RRT* on equal seeds (same end state, not longer).",
+        "design_ref": "DESIGN.md section 7 C17",
+        "note": PLANNER_NOTE + " 'No longer than RRT' is the float statement for root-to-leaf left-fold sums with edges measured dist(child,parent); symmetry of dist is C09.",
+        "technique": "Coq proof (float-level cost invariants via Flocq, simulation RRT ~ RRT*) + snapshot correspondence by vm_compute",
+    },
 }
 NOT_APPLICABLE = {}
